@@ -31,6 +31,7 @@ type LoopDir struct {
 type CallSiteDir struct {
 	Callee string
 	Expr   string
+	Ord    int // site#N: only the N-th statement (source order, 1-based) with this text; 0 = all
 }
 
 type Directives struct {
@@ -51,6 +52,7 @@ type Directives struct {
 	CyclicLemma bool // lemma on a cycle of lemma uses (uses inside the cycle give no facts)
 	Decreases string // lemma: termination measure for self-recursive (inductive) use
 	MonotoneFalse map[string]bool // boolean locals that may only be lowered
+	FrameLocal    []string        // array locals (and slices of them) that never escape: dynamic calls cannot touch them
 	Sites     []CallSiteDir // assertions checked immediately before a statement with the given source text
 	CallSites []CallSiteDir // assertions checked in the caller's scope immediately before a named call
 	PureFuncValues bool // calls through func-typed variables are uninterpreted pure functions in this VC
@@ -113,6 +115,13 @@ func parseDirectives(cg *ast.CommentGroup) *Directives {
 		if len(f) == 0 {
 			continue
 		}
+		siteOrd := 0
+		if strings.HasPrefix(f[0], "site#") {
+			// `site#N <statement text>: <expr>`: as `site`, for the N-th matching statement only
+			siteOrd, _ = strconv.Atoi(strings.TrimPrefix(f[0], "site#"))
+			line = "site" + strings.TrimPrefix(line, f[0])
+			f[0] = "site"
+		}
 		switch f[0] {
 		case "props":
 			for _, x := range f[1:] {
@@ -155,17 +164,19 @@ func parseDirectives(cg *ast.CommentGroup) *Directives {
 			for _, x := range f[1:] {
 				d.MonotoneFalse[x] = true
 			}
+		case "frame-local":
+			d.FrameLocal = append(d.FrameLocal, f[1:]...)
 		case "site":
 			// `site <statement text>: <expr>`: assertion immediately before every statement whose source
 			// text (first line) equals the given text
 			rest := strings.TrimSpace(strings.TrimPrefix(line, "site"))
 			if i := strings.Index(rest, ": "); i > 0 {
-				d.Sites = append(d.Sites, CallSiteDir{strings.TrimSpace(rest[:i]), strings.TrimSpace(rest[i+2:])})
+				d.Sites = append(d.Sites, CallSiteDir{strings.TrimSpace(rest[:i]), strings.TrimSpace(rest[i+2:]), siteOrd})
 			}
 		case "callsite":
 			rest := strings.TrimSpace(strings.TrimPrefix(line, "callsite"))
 			if i := strings.Index(rest, ":"); i > 0 {
-				d.CallSites = append(d.CallSites, CallSiteDir{strings.TrimSpace(rest[:i]), strings.TrimSpace(rest[i+1:])})
+				d.CallSites = append(d.CallSites, CallSiteDir{strings.TrimSpace(rest[:i]), strings.TrimSpace(rest[i+1:]), 0})
 			}
 		case "decreases":
 			d.Decreases = strings.TrimSpace(strings.TrimPrefix(strings.TrimSpace(line), "decreases"))
